@@ -250,6 +250,7 @@ def run_in_files(src):
                 raise Violation(f'.rules loader ({ctxname}) raised {type(e).__name__}: {str(e)[:200]} for {src[:200]!r}', case, 'file-escape:' + type(e).__name__)
             try:
                 apply_transforms(txn, eng.transforms)
+                txn_snap = copy.deepcopy(txn)  # transforms are the user's own assignments; matching (lets, fields, tags) must leave the transaction as it is
                 r = eng.match(txn, data_sources=rows)
             except Exception as e:
                 raise Violation(f'match with {src[:200]!r} as {ctxname} raised {type(e).__name__}: {str(e)[:200]}', case, 'file-escape:' + type(e).__name__)
@@ -263,6 +264,8 @@ def run_in_files(src):
                 raise Violation(f'{src!r} as {ctxname}: {what} contain a {b}', case, 'leak-file')
         if rows != rows_snap:
             raise Violation(f'{src!r} as {ctxname} changed the supplemental rows', case, 'mutation')
+        if repr(txn) != repr(txn_snap):
+            raise Violation(f'{src!r} as {ctxname}: matching changed the transaction\n  before {txn_snap!r}\n  after  {txn!r}', case, 'mutation')
     vtext = f'gv = {src}\n[V]\nlv = {src}\nfilter: {src}\n[W]\nfilter: gv or lv or True\n'
     arm()
     try:
